@@ -529,6 +529,11 @@ def mem_tie(ctx, tie_fail):
                 continue
             s0 = start - L if wl == "iterbwd" else start
             ops.append((f"{wl}@{start}", f"mem {wl} {s0} {L} {kib} {th}"))
+    # direction switches: the number of zig-zag cycles plays the role of the interval length (primes consumed grow, the
+    # position does not): the peak must not grow with it
+    for wl, start in [("iterzig", 10**12), ("citerzig", 10**10)] + ([] if q else [("iterzig", 10**6), ("citerzig", 10**13)]):
+        for cycles in ([2, 20, 200] if q else [2, 20, 200, 2000]):
+            ops.append((f"{wl}@{start}", f"mem {wl} {start} {cycles} 256 1"))
     res = _g.run_stream(c2.harness, None, "mem", ops, ctx.workdir, "mem", timeout=7200)
     wrong, _, cov = _g.analyse(ops, res)
     cov["rule"] = ("cases = (workload, start, interval length L, sieve KiB, threads) with L over 2-3 orders of magnitude at fixed "
@@ -541,12 +546,12 @@ def mem_tie(ctx, tie_fail):
         f = stream_iter.parse_fields(line.split(" => ", 1)[-1])
         t = o.split()
         wl, start, L, kib, th = t[1], int(t[2]), int(t[3]), int(t[4]), int(t[5])
-        stop = start + L
+        stop = start + (L if "zig" not in wl else 0)
         peak = int(f.get("peak", 0))
         sq = math.isqrt(stop)
         # ~8 bytes per sieving prime + bucket pool slack, sieve array and pre-sieve buffers per thread
         bound = int(24 * sq / max(1.0, math.log(sq) - 1.1)) + th * (3 * kib * 1024 + (1 << 20)) + (2 << 20)
-        if wl == "iterbwd":
+        if wl in ("iterbwd", "iterzig", "citerzig"):
             chunk = max(2 * sq, 524288 * int(math.log(max(10, stop))))
             bound += int(8 * 1.3 * chunk / (math.log(stop) - 1.1)) + (1 << 20)
         groups.setdefault(label, []).append((L, peak))
